@@ -117,6 +117,12 @@ def pool(contract, seed=0, limit=4000):
                     continue
         yield from cap(gen_fe())
         return
+    if cls_name == "Element" and contract.inst == "@cls":
+        from statham.schema.elements import Object, String
+        from statham.schema.property import Property
+        yield from cap((fn, (k,)) for k in (Object, Object.inline("A", properties={"a": Property(String(), required=True)}),
+                                             Object.inline("B", additionalProperties=False, patternProperties={"^x": String()})))
+        return
     if cls_name == "Element" and meth in ("validators", "type_validator", "__items__", "__properties__", "annotation") and (contract.inst or meth != "annotation"):
         yield from cap((fn, (mk(),)) for mk in instances_of(contract.inst or "Element"))
         return
@@ -281,7 +287,7 @@ def pool(contract, seed=0, limit=4000):
                 pass
         yield from cap((fn, (k, v, UNBOUND_PROPERTY)) for k in (A, B, C, D, E_) for v in list(vals[::2]) + insts)
         return
-    if cls_name == "ObjectMeta" and meth == "validators":
+    if cls_name == "ObjectMeta" and meth in ("validators", "type_validator"):
         from statham.schema.elements import Object, String
         from statham.schema.property import Property
         yield from cap((fn, (k,)) for k in (Object, Object.inline("A", properties={"a": Property(String(), required=True)}), Object.inline("B", minProperties=1)))
